@@ -173,9 +173,9 @@ class QueryBuilder:
             if node["ref"]["k"] == "node":
                 with refinement(self.cond(node["ref"]["cond"])):
                     emit(node["ref"])
-            if node["alt"]["k"] == "node":
-                with alternative(self.cond(node["alt"]["cond"])):
-                    emit(node["alt"])
+            for alt in node["alts"]:         # one `with alternative(...)` block after the other, in this node's block
+                with alternative(self.cond(alt["cond"])):
+                    emit(alt)
 
         with rule_mode(self.query):
             emit(tree)
